@@ -101,6 +101,12 @@ CHECKS.update({
                 design="4/C18, 2.9", note=BASE_NOTE + " MissingValue is not combined with the Positive/Fuzzy checks or with rounding; rounding ties are not generated."),
 })
 
+CHECKS.update({
+    "C02": dict(engine="model", technique="TLC -simulate of the builder state machine EEMSModel.tla (typed random DAGs with expected arrays through EEMSOps.Sem, PrefixStable) + TLC validation of whole-model runs in several file orders (EEMSModelTrace.tla) and of their engine events (MPRunAbsTrace.tla)",
+                text="Every behaviour of the builder is a well-typed model over the 33 data commands on one of three input tables; TLC computes each node's expected array and checks that it depends on the node's sub-graph only; admissible models are rendered in creation order, reversed and random permutations, with metadata and extra consumers (writer over all nodes, PrintVars, Copy), run through from_source + run on CSV data, and TLC validates every node's result against the evaluation of the graph and the recorded engine events against the abstract engine specification.",
+                design="4/C02, 2.8", note=EEMS_NOTE + " Models are sampled by TLC -simulate (quick about 400 models x 4 orders), not enumerated."),
+})
+
 NOT_YET = "check not built yet (build in progress; see DESIGN.md section 4b build order)"
 
 
@@ -147,6 +153,7 @@ def main():
             {"name": "heap", "path": "harness/heap.py", "serves_properties": ["C09"], "kind_free_text": "TLC (spec/MPHeap.tla, MPHeapTrace.tla) + digest histories over the real commands"},
             {"name": "csvio", "path": "harness/csvio.py", "serves_properties": ["C17"], "kind_free_text": "TLC (spec/CsvIO.tla, CsvIOTrace.tla) + file fixtures and the real CSV reader/writer"},
             {"name": "netcdfio", "path": "harness/netcdfio.py", "serves_properties": ["C18"], "kind_free_text": "TLC (spec/NetcdfIO.tla, NetcdfIOTrace.tla) + netCDF4 fixtures and the real NetCDF reader/writer"},
+            {"name": "model", "path": "harness/model.py", "serves_properties": ["C02"], "kind_free_text": "TLC (spec/EEMSModel.tla, EEMSModelTrace.tla, MPRunAbsTrace.tla) + command-file renderer and runner"},
             {"name": "validate", "path": "harness/validate.py", "serves_properties": ["C12", "C13"],
              "kind_free_text": "TLC (spec/MPValidateDefs.tla, MPValidate.tla, MPValidateTrace.tla, MPCli.tla, MPCliTrace.tla; MC_Decl generated by harness/decl.py) + renderer/runner"},
         ],
